@@ -138,9 +138,10 @@ class Machine:
         s.ext_hits = {}
         s.libm_small = False
         s.libm_log = {}
-        s.sym_access = None     # handler for accesses at symbolic offsets (race mode / ite chains)
+        s.sym_access = Machine.default_sym_access     # handler for accesses at symbolic offsets (race mode / ite chains)
         s.events = []
         s.choice_ctr = {}
+        s.fork_int_selects = False
         s.choice_log = []
 
     # ------------------------------------------------------------------ memory
@@ -175,6 +176,58 @@ class Machine:
             return
         s._clear(o, off, n)
         o.cells[off] = (v, n)
+
+    def default_sym_access(s, rw, p, n, arg):
+        """access at a symbolic offset: bounds become an obligation; a load is an ite chain over the cells of that size,
+        a store updates every candidate cell conditionally"""
+        if p.obj == 0:
+            raise SafetyEvent('null', 'null pointer dereference (symbolic offset)')
+        o = s.objs[p.obj]
+        if o.freed:
+            raise SafetyEvent('use-after-free', f'object {p.obj} ({o.kind} {o.name})')
+        off = p.off
+        inb = mk_and(mk_cmp('le', 0, off), mk_cmp('le', off, o.size - n))
+        s.int_ranges.append((inb, 1, 'inbounds', s.stack[-1] if s.stack else ''))
+        cand = sorted(k for k, c in o.cells.items() if isinstance(k, int) and c[1] == n)
+        zero_cand = []
+        for (a, b) in o.zero:
+            k = a + (-a % n)
+            while k + n <= b:
+                zero_cand.append(k)
+                k += n
+        if len(cand) + len(zero_cand) > 4096:
+            raise EngineError('symbolic-offset access into an object with more than 4096 candidate cells')
+        if rw == 'R':
+            ty = arg
+            res = None
+            keys = sorted(set(cand) | set(zero_cand))
+            if not keys:
+                return UNDEF
+            for k in reversed(keys):
+                v = o.cells[k][0] if k in o.cells else s.zero_of(ty)
+                if v is UNDEF:
+                    continue
+                if res is None:
+                    res = v
+                    continue
+                c = mk_cmp('eq', off, k)
+                if isinstance(v, Ptr) or isinstance(res, Ptr):
+                    res = v if s.decide(c) else res
+                else:
+                    srt = 'R' if (isinstance(v, Fraction) or (isinstance(v, Term) and v.sort == 'R')) else 'I'
+                    res = mk_ite(c, v, res, srt)
+            return UNDEF if res is None else res
+        v = arg
+        for k in sorted(set(cand) | set(zero_cand)):
+            c = mk_cmp('eq', off, k)
+            old = o.cells[k][0] if k in o.cells else (Fraction(0) if isinstance(v, (Fraction, Term)) and not isinstance(v, int) else 0)
+            if k not in o.cells:
+                s._clear(o, k, n)
+            if old is UNDEF:
+                old = v
+            srt = 'R' if (isinstance(v, Fraction) or (isinstance(v, Term) and v.sort == 'R')) else 'I'
+            o.cells[k] = (mk_ite(c, v, old, srt), n)
+        return None
 
     def _clear(s, o, off, n):
         cells = o.cells
@@ -387,6 +440,9 @@ class Machine:
             v = c[1]
             if s.mode == 'float':
                 return float(v)
+            if isinstance(v, float) and (v != v or v in (math.inf, -math.inf)):
+                # NaN / infinity literals have no real value: a distinguished symbol (only stored and observed, never decided on)
+                return sym('__nan__' if v != v else ('__inf__' if v > 0 else '__neginf__'), 'R')
             return Fraction(v)
         if k == 'meta':
             return None
@@ -724,6 +780,8 @@ class Machine:
             t = res(ty)
             if isinstance(t, FloatT):
                 return mk_ite(c, a, b, 'R')
+            if isinstance(t, IntT) and s.fork_int_selects and t.bits > 1:
+                return a if s.decide(c) else b
             if isinstance(t, IntT):
                 if isinstance(a, (int, Term)) and isinstance(b, (int, Term)) and not isinstance(a, bool):
                     if t.bits == 1:
